@@ -326,8 +326,7 @@ func (e *Env) eval(x Expr) TV {
 			if err != nil {
 				e.fail("%v", err)
 			}
-			vc.nfresh++
-			n := fmt.Sprintf("%s!q%d", b.Name, vc.nfresh)
+			n := fmt.Sprintf("%s!q%d", b.Name, vc.nextN())
 			n = q(n)
 			bs = append(bs, fmt.Sprintf("(%s %s)", n, vc.pre.sortOf(t)))
 			bnames = append(bnames, n)
@@ -830,8 +829,7 @@ func (e *Env) call(x *ECall) TV {
 						continue
 					}
 					if strings.HasPrefix(hs, "(Array Int ") {
-						vc.nfresh++
-						r := q(fmt.Sprintf("r!%d", vc.nfresh))
+						r := q(fmt.Sprintf("r!%d", vc.nextN()))
 						conj = append(conj, fmt.Sprintf("(forall ((%s Int)) (! (=> (and (<= 0 %s) (< %s %s)) (= (select %s %s) (select %s %s))) :pattern ((select %s %s))))", r, r, r, vc.getH(e.old, "$next", "Int"), cur, r, old, r, cur, r))
 					} else {
 						conj = append(conj, fmt.Sprintf("(= %s %s)", cur, old))
@@ -853,12 +851,26 @@ func (e *Env) call(x *ECall) TV {
 			if cur == old {
 				return TV{T: "true", Ty: boolT}
 			}
-			vc.nfresh++
-			r := q(fmt.Sprintf("r!%d", vc.nfresh))
+			r := q(fmt.Sprintf("r!%d", vc.nextN()))
 			return TV{T: fmt.Sprintf("(forall ((%s Int)) (! (=> (not (= %s (s_ref %s))) (= (select %s %s) (select %s %s))) :pattern ((select %s %s))))", r, r, v.T, cur, r, old, r, cur, r), Ty: boolT}
 		case "content": // content(b): the byte string held by slice b in the current heap, as an abstract value
 			v := e.eval(x.Args[0])
 			return TV{T: vc.contentOf(v.T, e.cur), Ty: bytesT}
+		case "machineTable": // machineTable(f, "machine name", mach): ground facts from the real constructor (tools/tabledump)
+			f, mach := e.eval(x.Args[0]), e.eval(x.Args[2])
+			t, err := vc.machineTableFacts(f.T, mach.T, typeText(x.Args[1]), e.cur)
+			if err != nil {
+				e.fail("%v", err)
+			}
+			vc.r().groundUsed["machine table of "+typeText(x.Args[1])+" (evaluated by running the real constructor New())"] = true
+			return TV{T: t, Ty: boolT}
+		case "machOf": // machOf(f, "machine name"): the machine struct whose methods are the callbacks of engine f
+			f := e.eval(x.Args[0])
+			t, ty, err := vc.machOfTerm(f.T, typeText(x.Args[1]), e.cur)
+			if err != nil {
+				e.fail("%v", err)
+			}
+			return TV{T: t, Ty: ty}
 		case "emptyset":
 			t, err := vc.P.resolveType(typeText(x.Args[0]), e.pkgPath)
 			if err != nil {
@@ -1003,8 +1015,7 @@ func (e *Env) sliceEq(a TV, sa *State, b TV, sb *State) string {
 		e.fail("beq needs slices")
 	}
 	n, s := vc.arrHeap(st.Elem())
-	vc.nfresh++
-	k := q(fmt.Sprintf("k!%d", vc.nfresh))
+	k := q(fmt.Sprintf("k!%d", vc.nextN()))
 	return fmt.Sprintf("(and (= (s_len %s) (s_len %s)) (forall ((%s Int)) (=> (and (<= 0 %s) (< %s (s_len %s)) (= (idx %s %s) (+ (s_off %s) %s)) (= (idx %s %s) (+ (s_off %s) %s))) (= (select (select %s (s_ref %s)) (idx %s %s)) (select (select %s (s_ref %s)) (idx %s %s))))))",
 		a.T, b.T, k, k, k, a.T, a.T, k, a.T, k, b.T, k, b.T, k, vc.getH(sa, n, s), a.T, a.T, k, vc.getH(sb, n, s), b.T, b.T, k)
 }
